@@ -123,12 +123,11 @@ open FuModel.Find.Walk
     together over the real walk (walkdir's iterator under `process_dir`); proof in
     `Proofs/OutWalk.lean` (`processDir_out`, for every action that only writes). -/
 theorem C07_whole_walk (c : Config) (t : Prim) (ht : isTestP t = true) (pre term : Bytes)
-    (start : Bytes) (root : Node Attr) (g : GS)
-    (hH : (refCfg c).depthFirst = true → ¬ HRootLink (refCfg c) (if c.sorted then sortNode root else root)) :
+    (start : Bytes) (root : Node Attr) (g : GS) :
     let n := if c.sorted then sortNode root else root
     let r := processDir c (.and [.prim t, .prim (.pathOut pre term)]) start (some root) g
     r.gs.out = g.out ++ (visitsN (refCfg c) [] 0 n).flatMap (written start t (.pathOut pre term)) ∧ r.quit = false :=
-  processDir_out c t (.pathOut pre term) ht rfl start root g hH
+  processDir_out c t (.pathOut pre term) ht rfl start root g
 
 /-- non-vacuity: `find t -type f -print0` on a two-level tree (the reference side of the equation,
     evaluated by the kernel) -/
@@ -166,7 +165,6 @@ theorem written_flat (t : Prim) (start : Bytes) (vs : List (Visit Attr))
     its commands, concatenated, are exactly the paths of the in-range reachable entries that satisfy
     the test, in visit order: each delivered to a command once, unmodified, nothing else. -/
 theorem C07_pipeline (c : Config) (t : Prim) (ht : isTestP t = true) (start : Bytes) (root : Node Attr)
-    (hH : (refCfg c).depthFirst = true → ¬ HRootLink (refCfg c) (if c.sorted then sortNode root else root))
     (hv : ∀ p ∈ matched c t start (if c.sorted then sortNode root else root),
       FuModel.Utf8.validUtf8 p = true ∧ p ≠ [] ∧ (0 : UInt8) ∉ p)
     (cfg : Xargs.Config) (init : LState) (script : List Outcome) :
@@ -176,7 +174,7 @@ theorem C07_pipeline (c : Config) (t : Prim) (ht : isTestP t = true) (start : By
     (run.status = 0 ∨ run.status = 123) →
       run.batches.flatten.map (·.bytes) = matched c t start (if c.sorted then sortNode root else root) := by
   intro out args run hs
-  have hw := (C07_whole_walk c t ht [] [0] start root {} hH).1
+  have hw := (C07_whole_walk c t ht [] [0] start root {}).1
   have hvs : ∀ v ∈ visitsN (refCfg c) [] 0 (if c.sorted then sortNode root else root),
       (sem start v t es0).1 = true → FuModel.Utf8.validUtf8 (pathOf start v.ent.rpath) = true := by
     intro v hv' hb
